@@ -145,7 +145,10 @@ def run(ctx):
                 "final offsets on both sides); oracles on the implementation: linear kick, sinusoidal kick, drift field, synchronous phase. rfiter: RF kick + drift iterated over a full period "
                 "(steps 20..400) on n in {32,48,64}, it 2..4, integer and half-integer zero-bin shifts in x and y, Gaussian / two-lump / "
                 "signed blobs: raw first moments after every step vs the exact orbit M^k c0 of the model; fit of the one-step map; "
-                "closure after one period. Non-trivial: centroid at least 1.5 cells from the zero bin and >= 3 steps.")
+                "closure after one period. Non-trivial: centroid at least 1.5 cells from the zero bin and >= 3 steps. "
+                "The rfiter grids are wired as main() wires a run (grid_t2/grid_t3 copies carrying the START distribution's cached profiles, Identity stand-ins for wake "
+                "and Fokker-Planck, only grid_t1's profile refreshed per step); the blobs have compact support, so the orbit carries charge into columns that were "
+                "exactly empty at the start (C03_rf_kick_every_column).")
     coq = vp_coq.full_check("C03", ctx, fams=("rf",))
     if ctx.quick():
         dis = run_api(ctx, 240, 90)
@@ -170,6 +173,11 @@ def run(ctx):
         ctx.notes.append("Gen_RFDrift: translator failed; the last-good generated offset fields and the hand-written model agree with the "
                          "implementation on every entry of every case of this run and every oracle holds: downgraded to tie 2")
         coq = dict(coq, ok=True)
+    # (family st3kick) Gen_KickLoop: the loop nest of the RF kick; validated by the orbit runs wired as main() wires a run (stale caches)
+    import kick_cases as kc
+    coq = kc.kickloop_downgrade(ctx, coq, dis, ctx.dist.get("rfiter:lin", 0) + ctx.dist.get("rfiter:sin", 0) >= 20,
+                                "RF kick + drift iterated over full periods on grids wired as main() wires them (copies with the start distribution's caches, "
+                                "only grid_t1's profile refreshed), compact blobs carried into columns that were empty at the start: orbit, one-step map, closure")
     ctx.assumptions += ["exact-arithmetic model; float rounding is carried by tolerances derived from operation counts (lib/rf_cases.py: tol_orbit, compare_offs)",
                         "tan(angle), _bl2phase, the sine samples and the scale of axis 1 are taken from the implementation as exact dyadic numbers; "
                         "tan and sin are cross-checked against libm on the Python side",
